@@ -27,6 +27,7 @@ PROPS["C01"] = {
             P("test", "VerifFileRoundTrip", w=3, k=2, maxn=4, minlen=1),
             P("test", "VerifFileRoundTrip", w=2, k=1, maxn=3, distinct=0),
             P("test", "VerifFileRoundTrip", must_reach=("end", "other-chunkers"), w=2, k=1, maxn=3, chunker=1),
+            P("test", "VerifFileRoundTrip", must_reach=("end", "variable-chunks"), w=2, k=1, maxn=3, varchunks=1),
             P("test", "VerifReaderMenu", must_reach=("end", "cidv0", "pb-leaf", "pb-leaf-typed-raw", "no-filesize", "no-blocksizes")),
         ],
         "thorough": [
@@ -36,6 +37,7 @@ PROPS["C01"] = {
             P("test", "VerifFileRoundTrip", w=5, k=1, maxn=27, minlen=24, maxbuf=2),
             P("test", "VerifFileRoundTrip", w=2, k=3, maxn=5, maxbuf=5),
             P("test", "VerifFileRoundTrip", w=2, k=1, maxn=5, distinct=0),
+            P("test", "VerifFileRoundTrip", must_reach=("end", "variable-chunks"), w=2, k=1, maxn=4, varchunks=1),
             P("test", "VerifReaderMenu", must_reach=("end", "cidv0", "pb-leaf", "no-filesize", "no-blocksizes", "trickle"), deep=1),
         ],
     },
@@ -43,7 +45,7 @@ PROPS["C01"] = {
         "quick": "builder->reader: all contents of 0..6 size-1 chunks at width 2 (3 interior levels reached at 5), 1..8 bytes in size-2 chunks at width 3, buffers 1..3, direct/lazy/preload; free chunk aliasing for <=3 chunks; default / rabin / buzhash chunkers on inputs of 0..3 bytes (below their chunk sizes: one leaf); reader over hand-assembled DAG menu (raw/dag-pb leaves typed File or Raw, inline data, FileSize/BlockSizes present or absent, CIDv0/v1, trickle-like mixed depth) with <=2 children per node, depth <=2",
         "thorough": "width 2: 0..33 chunks (7 levels); width 3: 9..40; width 4: 5..40; width 5: 24..27 (around 5^2); size-3 chunks; buffers 1..5; free aliasing <=5 chunks; reader menu depth 3 (slimmed below the top node)",
     },
-    "assumptions": ["multi-chunk files are produced with the size-K chunker (real boxo SizeSplitter executed); the default and content-defined chunkers (rabin, buzhash) are executed only on inputs below their minimum chunk size (chunk boundaries decided by a rolling hash of symbolic bytes did not finish: 15 min for 18 bytes)",
+    "assumptions": ["multi-chunk files are produced with the size-K chunker (real boxo SizeSplitter executed) or by a model splitter cutting at explorer-chosen points (any chunker; 1..3 chunks of sizes 1..3 in quick; natively realised with the real rabin chunker); the default and content-defined chunkers (rabin, buzhash) are executed only on inputs below their minimum chunk size (chunk boundaries decided by a rolling hash of symbolic bytes did not finish: 15 min for 18 bytes)",
                     "model LinkSystem: real codecs and Store/Load paths, collision-free model hash instead of SHA-256"],
     "outside": "rabin/buzhash/default-chunker boundaries, width 174 itself (code is width-generic), files longer than the bound, reference-importer DAGs beyond the menu grammar",
 }
@@ -64,7 +66,10 @@ PROPS["C02"] = {
             P("data/builder", "VerifAutoShardThreshold", must_reach=("end", "plain", "sharded")),
             P("test", "VerifShardedDir", lg=3, entries=2, maxdepth=2),
             P("test", "VerifPlainDirMap", entries=2),
-            P("test", "VerifHamtReaderWellFormed", must_reach=("end", "member", "non-member", "iterate", "enumerate-then-lookup", "lookup-then-enumerate")),
+            P("test", "VerifHamtReaderWellFormed", must_reach=("end", "member", "non-member", "iterate", "enumerate-then-lookup", "lookup-then-enumerate", "empty-key")),
+            P("test", "VerifHamtReaderWellFormed", must_reach=("end", "member", "non-member", "iterate", "enumerate-then-lookup", "lookup-then-enumerate", "empty-key"), lg=9, hi=1),
+            P("hamt", "VerifReaderDeepChain", must_reach=("end", "too-deep", "deep-ok")),
+            P("data/builder", "VerifBuilderDeepChain", must_reach=("end", "too-deep", "deep-ok")),
         ],
         "thorough": [
             P("hamt", "VerifHashBitsNext", must_reach=("end", "too-deep")),
@@ -82,12 +87,12 @@ PROPS["C02"] = {
             P("data/builder", "VerifBuilderDeepChain", must_reach=("end", "too-deep", "deep-ok")),
                      P("hamt", "VerifReaderDeepChain", must_reach=("end", "too-deep", "deep-ok")),
             P("test", "VerifPlainDirMap", entries=3),
-            P("test", "VerifHamtReaderWellFormed", must_reach=("end", "member", "non-member", "iterate", "enumerate-then-lookup", "lookup-then-enumerate")),
+            P("test", "VerifHamtReaderWellFormed", must_reach=("end", "member", "non-member", "iterate", "enumerate-then-lookup", "lookup-then-enumerate", "empty-key")),
             P("hamt", "VerifEngineRunes", len=2),  # engine self-check: built-in rune conversions == interpreted unicode/utf8
         ],
     },
     "bounds": {
-        "quick": "kernels over ALL values: 64-bit hashes x fanout 8..1024 x depth 0..21 (reader Next and builder Slice against one bit-slice spec), bitfields of 1-2 bytes x every index, link-name prefix laws for pad 1..3 and names/keys of 0..3 arbitrary bytes, estimateDirSize over link-kind mixes, auto-shard threshold at estimate threshold-1/0/+1; pipeline: 2 entries + 1 probe (unrelated / suffix / extension of an entry name), fanout 8, depth<=2, symbolic 64-bit name hashes with buckets {0,1,7}, symbolic sizes < 128; plain directory 0..3 entries; hand-built non-canonical HAMTs (4 shapes, 3 levels)",
+        "quick": "kernels over ALL values: 64-bit hashes x fanout 8..1024 x depth 0..21 (reader Next and builder Slice against one bit-slice spec), bitfields of 1-2 bytes x every index, link-name prefix laws for pad 1..3 and names/keys of 0..3 arbitrary bytes, estimateDirSize over link-kind mixes, auto-shard threshold at estimate threshold-1/0/+1; pipeline: 2 entries + 1 probe (unrelated / suffix / extension of an entry name), fanout 8, depth<=2, symbolic 64-bit name hashes with buckets {0,1,7}, symbolic sizes < 128; plain directory 0..3 entries; hand-built non-canonical HAMTs (4 shapes, 3 levels; also at fanout 512 in the highest buckets), the empty key as non-member; two names colliding for every number of levels up to the 64-bit limit (reader and builder), incl. the too-deep error",
         "thorough": "all widths 1..63 x all offsets in the inductive hashBits step; bitfields of 8 and 32 bytes (fanout 64, 256; per-byte popcount taken as a primitive on both sides, index arithmetic checked); pipeline with 3 entries, fanout 16, depth 3, unrestricted buckets; two names colliding for every number of levels up to the 64-bit limit incl. the too-deep error",
     },
     "assumptions": ["symbolic name hash: murmur3.New64 is replaced on builder and reader side by one table name->8 symbolic bytes (any function from names to 64 bits); native replays search real names whose murmur3 hash matches the witness prefix",
@@ -105,6 +110,7 @@ PROPS["C03"] = {
                   P("test", "VerifPathSymbolicSegment", must_reach=("end", "names-nothing"), namelen=1, seglen=3),
                   P("test", "VerifPathSymbolicSegment", must_reach=("end", "names-the-entry", "names-nothing"), namelen=3, seglen=3),
                   P("test", "VerifPathShardedProbe", must_reach=("end", "present", "absent"), sharetargets=0),
+                  P("test", "VerifPathTraversal", must_reach=("end", "present", "absent"), distinct=0),
                   P("hamt", "VerifMatchKey")],
         "thorough": [P(".", "VerifPathSelectorShape", must_reach=("end", "empty-path"), len=5),
                      P("test", "VerifPathTraversal", must_reach=("end", "present", "absent")),
@@ -146,14 +152,14 @@ PROPS["C05"] = {
         "quick": [P("test", "VerifFileRangeLoads", must_reach=("end", "single-block"), w=2, k=2, maxlen=6),
                   P("test", "VerifFileRangeLoads", must_reach=("end", "second-range"), w=2, k=1, maxlen=4, ranges=2),
                   P("test", "VerifFileRangeLoads", must_reach=("end",), w=2, k=1, maxlen=4, distinct=0),
-                  P("test", "VerifHamtReaderWellFormed", must_reach=("end", "member", "non-member", "iterate", "enumerate-then-lookup", "lookup-then-enumerate")),
+                  P("test", "VerifHamtReaderWellFormed", must_reach=("end", "member", "non-member", "iterate", "enumerate-then-lookup", "lookup-then-enumerate", "empty-key")), P("test", "VerifHamtReaderWellFormed", must_reach=("end", "member", "non-member", "iterate", "enumerate-then-lookup", "lookup-then-enumerate", "empty-key"), lg=9, hi=1),
                   P("test", "VerifPathTraversal", must_reach=("end", "present", "absent"))],
         "thorough": [P("test", "VerifFileRangeLoads", must_reach=("end", "single-block"), w=2, k=2, maxlen=10),
                      P("test", "VerifFileRangeLoads", must_reach=("end",), w=3, k=1, maxlen=10),
                      P("test", "VerifFileRangeLoads", must_reach=("end", "second-range"), w=2, k=1, maxlen=6, ranges=2),
                      P("test", "VerifFileRangeLoads", must_reach=("end", "second-range"), w=2, k=2, maxlen=5, ranges=3),
                      P("test", "VerifFileRangeLoads", must_reach=("end",), w=2, k=1, maxlen=5, distinct=0),
-                     P("test", "VerifHamtReaderWellFormed", must_reach=("end", "member", "non-member", "iterate", "enumerate-then-lookup", "lookup-then-enumerate")),
+                     P("test", "VerifHamtReaderWellFormed", must_reach=("end", "member", "non-member", "iterate", "enumerate-then-lookup", "lookup-then-enumerate", "empty-key")),
                      P("test", "VerifPathTraversal", must_reach=("end", "present", "absent"))],
     },
     "bounds": {"quick": "files 1..6 bytes (width 2, size-2): every range [a,b), loaded set == blocks meeting the range + ancestors; two ranges read one after the other through ONE reader (absolute or relative Seek between them, forwards or backwards; files to 4 chunks): loaded set == what the two ranges need; contents with repeated chunks; HAMT lookups (member, and non-member with an arbitrary 64-bit hash) load exactly the shards on the hash path, in order; path traversal loads only path + entity blocks",
@@ -170,11 +176,13 @@ PROPS["C06"] = {
                   P("test", "VerifFileFullReadOrder", must_reach=("end", "preload", "repeated-block"), w=2, k=1, maxlen=4, distinct=0),
                   P("test", "VerifFileMissingBlock", w=2, k=1, maxlen=4, distinct=0),
                   P("test", "VerifHamtPreload", must_reach=("end", "missing")),
+                  P("test", "VerifHamtPreload", must_reach=("end", "missing"), lg=9, hi=1), P("test", "VerifHamtPreload", must_reach=("end", "missing"), lg=10, hi=1),
                   P("test", "VerifPathTraversal", must_reach=("end", "present", "absent"))],
         "thorough": [P("test", "VerifFileFullReadOrder", must_reach=("end", "preload"), w=2, k=1, maxlen=12),
                      P("test", "VerifFileMissingBlock", w=2, k=1, maxlen=9),
                      P("test", "VerifFileMissingBlock", w=3, k=1, maxlen=10),
                      P("test", "VerifHamtPreload", must_reach=("end", "missing")),
+                  P("test", "VerifHamtPreload", must_reach=("end", "missing"), lg=9, hi=1), P("test", "VerifHamtPreload", must_reach=("end", "missing"), lg=10, hi=1),
                      P("test", "VerifPathTraversal", must_reach=("end", "present", "absent"))],
     },
     "bounds": {"quick": "files 0..6 chunks (width 2): preload fetches every block once, in order, nothing else; every single missing block makes preload fail without a node; hand-built HAMTs: preload fetches every shard and no entry target, every single missing shard makes it fail; entity/preload selectors through the real traversal on one tree",
@@ -189,18 +197,21 @@ PROPS["C07"] = {
         "quick": [P("test", "VerifFileStructure", must_reach=("end", "empty"), w=2, k=1, maxn=9),
                   P("test", "VerifFileStructure", w=3, k=1, maxn=13, minn=1),
                   P("test", "VerifFileStructure", w=2, k=1, maxn=4, distinct=0),
-                  P("test", "VerifFileStructure", w=3, k=1, maxn=4, distinct=0)],
+                  P("test", "VerifFileStructure", w=3, k=1, maxn=4, distinct=0),
+                  P("test", "VerifFileStructure", must_reach=("end", "variable-chunks"), w=2, k=1, maxn=5, minn=1, varchunks=1)],
         "thorough": [P("test", "VerifFileStructure", must_reach=("end", "empty"), w=2, k=1, maxn=33),
                      P("test", "VerifFileStructure", w=3, k=1, maxn=40, minn=1),
                      P("test", "VerifFileStructure", w=4, k=1, maxn=40, minn=1),
                      P("test", "VerifFileStructure", w=2, k=3, maxn=6, minn=1),
                      P("test", "VerifFileStructure", w=2, k=1, maxn=5, distinct=0),
-                     P("test", "VerifFileStructure", w=3, k=1, maxn=5, distinct=0)],
+                     P("test", "VerifFileStructure", w=3, k=1, maxn=5, distinct=0),
+                     P("test", "VerifFileStructure", must_reach=("end", "variable-chunks"), w=2, k=1, maxn=7, minn=1, varchunks=1),
+                     P("test", "VerifFileStructure", must_reach=("end", "variable-chunks"), w=3, k=1, maxn=7, minn=1, varchunks=1)],
     },
-    "bounds": {"quick": "every chunk count 0..9 at width 2 and 1..13 at width 3 (size-1 chunks, arbitrary distinct contents), and every content of 0..4 chunks with freely repeated chunks (identical siblings, identical subtrees) at widths 2 and 3: stored DAG == refBalanced (kinds, child lists, order, FileSize, BlockSizes, Tsize), returned size == cumulative",
+    "bounds": {"quick": "every chunk count 0..9 at width 2 and 1..13 at width 3 (size-1 chunks, arbitrary distinct contents), and every content of 0..4 chunks with freely repeated chunks (identical siblings, identical subtrees) at widths 2 and 3, and ANY splitter (1..5 chunks of explorer-chosen sizes 1..3, equal or different contents; the chunker is replaced by a model that cuts there; native replays realise the same size/equality pattern with the real rabin-16-32-64 chunker): stored DAG == refBalanced (kinds, child lists, order, FileSize, BlockSizes, Tsize), returned size == cumulative",
                "thorough": "n <= 33 (width 2), <= 40 (widths 3, 4); short last chunk"},
     "assumptions": ["same structure and field values => same bytes => same CID rests on the determinism of the dag-pb codec and SHA-256 (dependencies); refBalanced is validated natively against boxo balanced.Layout for n<=40, w=2,3,4 (/verif/validate)"],
-    "outside": "chunk counts above the bound; content-defined chunkers",
+    "outside": "chunk counts above the bound; the cut points a particular content-defined chunker chooses (the builder is checked for ANY cut points)",
 }
 
 # ---------------------------------------------------------------- C08
@@ -212,7 +223,10 @@ PROPS["C08"] = {
                   P("hamt", "VerifHashBitsNext", must_reach=("end", "too-deep")),
                   P("data/builder", "VerifFormatLinkName"),
                   P("hamt", "VerifMatchKey"), P("hamt", "VerifIsValueLink"), P("hamt", "VerifTransformName"),
-                  P("test", "VerifHamtReaderWellFormed", must_reach=("end", "member", "non-member", "iterate", "enumerate-then-lookup", "lookup-then-enumerate"))],
+                  P("test", "VerifHamtReaderWellFormed", must_reach=("end", "member", "non-member", "iterate", "enumerate-then-lookup", "lookup-then-enumerate", "empty-key")),
+                  P("test", "VerifHamtReaderWellFormed", must_reach=("end", "member", "non-member", "iterate", "enumerate-then-lookup", "lookup-then-enumerate", "empty-key"), lg=10, hi=1),
+                  P("hamt", "VerifReaderDeepChain", must_reach=("end", "too-deep", "deep-ok")),
+                  P("data/builder", "VerifBuilderDeepChain", must_reach=("end", "too-deep", "deep-ok"))],
         "thorough": [P("test", "VerifShardedDir", lg=3, entries=3, maxdepth=2),
                      P("hamt", "VerifMatchKey"), P("hamt", "VerifIsValueLink"), P("hamt", "VerifTransformName"),
                      P("test", "VerifShardedDir", lg=4, entries=2, maxdepth=2),
@@ -223,7 +237,7 @@ PROPS["C08"] = {
                      P("data/builder", "VerifFormatLinkName"),
                      P("data/builder", "VerifBuilderDeepChain", must_reach=("end", "too-deep", "deep-ok")),
                      P("hamt", "VerifReaderDeepChain", must_reach=("end", "too-deep", "deep-ok")),
-                     P("test", "VerifHamtReaderWellFormed", must_reach=("end", "member", "non-member", "iterate", "enumerate-then-lookup", "lookup-then-enumerate"))],
+                     P("test", "VerifHamtReaderWellFormed", must_reach=("end", "member", "non-member", "iterate", "enumerate-then-lookup", "lookup-then-enumerate", "empty-key"))],
     },
     "bounds": {"quick": "builder output == refHAMT (structure, link names, bitfield without leading zero bytes, Tsizes, returned size) for 2 entries, fanout 8, depth<=2; bit-slice and link-name kernels over all values; reader on hand-built locally well-formed, non-canonical shard trees (what insert/remove histories leave behind)",
                "thorough": "3 entries; fanout 16; unrestricted buckets; sizes up to 2^40; collision chains to the 64-bit limit"},
@@ -357,11 +371,11 @@ PROPS["C14"] = {
 PROPS["C15"] = {
     "programs": {
         "quick": [P("test", "VerifLinkMapContract", must_reach=("end", "absent-key", "present-key"), links=2),
-                  P("test", "VerifHamtReaderWellFormed", must_reach=("end", "member", "non-member", "iterate", "enumerate-then-lookup", "lookup-then-enumerate")),
+                  P("test", "VerifHamtReaderWellFormed", must_reach=("end", "member", "non-member", "iterate", "enumerate-then-lookup", "lookup-then-enumerate", "empty-key")), P("test", "VerifHamtReaderWellFormed", must_reach=("end", "member", "non-member", "iterate", "enumerate-then-lookup", "lookup-then-enumerate", "empty-key"), lg=9, hi=1),
                   P("hamt", "VerifMatchKey"), P("hamt", "VerifIsValueLink"), P("hamt", "VerifTransformName"),
                   P("test", "VerifShardedDir", lg=3, entries=2, maxdepth=2)],
         "thorough": [P("test", "VerifLinkMapContract", must_reach=("end", "absent-key", "present-key"), links=3),
-                     P("test", "VerifHamtReaderWellFormed", must_reach=("end", "member", "non-member", "iterate", "enumerate-then-lookup", "lookup-then-enumerate")),
+                     P("test", "VerifHamtReaderWellFormed", must_reach=("end", "member", "non-member", "iterate", "enumerate-then-lookup", "lookup-then-enumerate", "empty-key")),
                      P("test", "VerifShardedDir", lg=3, entries=3, maxdepth=2)],
     },
     "bounds": {"quick": "link lists of 0..2 links (names absent or 0..2 arbitrary bytes, so empty and duplicate names arise as solver cases; sizes present or not), plain directory and generic link map, probe key of 0..2 arbitrary bytes; 4 hand-built well-formed HAMT shapes; the shard name kernels (key match, link classification, prefix stripping) over all names/keys of the bound; builder-written 2-entry HAMT with a non-member probe that is unrelated to / a suffix / a prefix / an extension of an entry name and has an arbitrary hash",
@@ -435,14 +449,14 @@ PROPS["C20"] = {
         "quick": [P("test", "VerifFileFullReadOrder", must_reach=("end", "preload"), w=2, k=1, maxlen=6),
                   P("test", "VerifFileFullReadOrder", must_reach=("end", "preload", "repeated-block"), w=2, k=1, maxlen=4, distinct=0),
                   P("test", "VerifHandBuiltReadOrder", must_reach=("end", "preload", "skewed-tsize", "two-levels")),
-                  P("test", "VerifHamtReaderWellFormed", must_reach=("end", "member", "non-member", "iterate", "enumerate-then-lookup", "lookup-then-enumerate")),
-                  P("test", "VerifHamtPreload", must_reach=("end", "missing")),
+                  P("test", "VerifHamtReaderWellFormed", must_reach=("end", "member", "non-member", "iterate", "enumerate-then-lookup", "lookup-then-enumerate", "empty-key")),
+                  P("test", "VerifHamtPreload", must_reach=("end", "missing")), P("test", "VerifHamtPreload", must_reach=("end", "missing"), lg=10, hi=1),
                   P("test", "VerifPathTraversal", must_reach=("end", "present", "absent"))],
         "thorough": [P("test", "VerifFileFullReadOrder", must_reach=("end", "preload"), w=2, k=1, maxlen=12),
                      P("test", "VerifFileFullReadOrder", must_reach=("end", "preload"), w=3, k=1, maxlen=13),
                      P("test", "VerifFileFullReadOrder", must_reach=("end", "preload", "repeated-block"), w=2, k=1, maxlen=5, distinct=0),
                      P("test", "VerifHandBuiltReadOrder", must_reach=("end", "preload", "skewed-tsize", "two-levels")),
-                     P("test", "VerifHamtReaderWellFormed", must_reach=("end", "member", "non-member", "iterate", "enumerate-then-lookup", "lookup-then-enumerate")),
+                     P("test", "VerifHamtReaderWellFormed", must_reach=("end", "member", "non-member", "iterate", "enumerate-then-lookup", "lookup-then-enumerate", "empty-key")),
                      P("test", "VerifHamtPreload", must_reach=("end", "missing")),
                      P("test", "VerifPathTraversal", must_reach=("end", "present", "absent"))],
     },
